@@ -59,6 +59,19 @@ FailSig(r) ==
   ELSE IF StoreStagesDroppedFromMatrix(r) THEN "request_failed:store_stages_dropped_stage_index_shift"
   ELSE "request_failed"
 
+\* the deterministic failure is programmed in the source mapper m_src: it happens iff m_src is needed for the output
+\* module and executes at the failing block
+RECURSIVE DepsOf(_)
+DepsOf(name) ==
+  LET m == ModByName(prog, name)
+      d == {m.inputs[i].v : i \in {j \in DOMAIN m.inputs : m.inputs[j].k \in {"map", "store"}}}
+           \cup (IF m.filter = <<>> THEN {} ELSE {m.filter[1]}) IN
+  d \cup UNION {DepsOf(x) : x \in d}
+FailExpected(r) ==
+  /\ "m_src" \in DepsOf(OutMod.name)
+  /\ r.failAt <= MaxBlock /\ r.failAt >= LowestInit(prog)
+  /\ Res(r.failAt).outs["m_src"].ran
+
 RunFails(r, from) ==
   LET c == r.cfg  o == r.obs  ds == Datas(o)
       S == c.start  E == c.stop
@@ -70,7 +83,7 @@ RunFails(r, from) ==
   IN
   IF o.panic # "" THEN <<"panic">>
   ELSE IF \E i \in DOMAIN ds : ds[i].unparsed THEN <<"unparsable_payload">>
-  ELSE IF r.failAt >= 0 THEN
+  ELSE IF r.failAt >= 0 /\ FailExpected(r) THEN
      \* a module fails deterministically at block failAt: invalid-argument, and what was delivered is a correct prefix before it
      F(o.err # "" /\ o.code = "invalid_argument", "deterministic_failure_not_reported_as_invalid_argument")
   \o F(\A i \in DOMAIN ds : ds[i].num < r.failAt, "block_delivered_at_or_after_the_failing_block")
